@@ -46,8 +46,15 @@ def sub_data(spec, sub, lv, bid, glo, ghi, k):
     subi = SUBS.index(sub)
     r = np.random.RandomState((spec["seed"] + 1000003 * lv + 10007 * bid + 101 * k + 13 * subi) % (1 << 31))
     if sub == "state" and 4 <= k < 4 + spec["nspec"]:
+        raw = lambda kk: np.random.RandomState((spec["seed"] + 1000003 * lv + 10007 * bid + 101 * kk + 13 * subi) % (1 << 31)
+                                               ).randint(1, 64, size=n).astype("float64") / 64.0
+        if spec.get("near_one"):
+            # normalised up to a drift of a few 1e-6 (what a time integrator leaves behind): flooring still has to rescale
+            tot = sum(raw(kk) for kk in range(4, 4 + spec["nspec"]))
+            drift = 1.0 + 5e-6 * (1 + (np.arange(n) % 3 - 1) * 0.5)
+            return (raw(k) / tot * drift).reshape(shape, order="F")
         # positive mass fractions, deliberately not normalised
-        return (r.randint(1, 64, size=n).astype("float64") / 64.0).reshape(shape, order="F")
+        return raw(k).reshape(shape, order="F")
     return (r.randint(-512, 513, size=n).astype("float64") / 8.0 + subi).reshape(shape, order="F")
 
 
